@@ -42,7 +42,8 @@ C01_CORPUS = [
     ({'encoder_bit_depth': 10}, {'kind': 'mix', 'seed': 4}, 6, (64, 64)),
     ({'tile_columns': 1, 'tile_rows': 1, 'enc_mode': 6}, {'kind': 'moving', 'seed': 5}, 8, (128, 128)),
     ({'super_block_size': 128, 'enc_mode': 5}, {'kind': 'moving', 'seed': 6}, 6, (192, 128)),
-    ({'film_grain_denoise_strength': 10}, {'kind': 'noise', 'seed': 7}, 5, (64, 64)),
+    ({'film_grain_denoise_strength': 10}, {'kind': 'grainy', 'seed': 7, 'val': 64}, 5, (64, 64)),
+    ({'film_grain_denoise_strength': 30, 'hierarchical_levels': 3}, {'kind': 'grainy', 'seed': 17, 'hold': 2}, 7, (128, 128)),
     ({'hierarchical_levels': 3, 'enable_overlays': 1, 'enc_mode': 6}, {'kind': 'moving', 'seed': 8}, 18, (64, 64)),
     ({'pred_structure': 1, 'enc_mode': 7}, {'kind': 'mix', 'seed': 9}, 7, (72, 66)),
     ({'screen_content_mode': 1, 'enc_mode': 6, 'palette_level': 6, 'intrabc_mode': 1}, {'kind': 'text', 'seed': 10}, 5, (128, 64)),
@@ -56,13 +57,14 @@ C01_CORPUS = [
     ({'tile_rows': 0, 'tile_columns': 2, 'enable_restoration_filtering': 1, 'enc_mode': 6, 'super_block_size': 64}, {'kind': 'hgrad', 'seed': 16}, 4, (512, 128)),
 ]
 
-def swarm_cases(ck, tier, nq, nt, oracles, corpus, fields_quick=gen.SAFE, kinds=None, nrange=(1, 12), force=None, sizes_small=True):
+def swarm_cases(ck, tier, nq, nt, oracles, corpus, fields_quick=gen.SAFE, kinds=None, nrange=(1, 12), force=None, sizes_small=True, vary=None):
     rng = ck.rng; cases = []
     for (cfgo, cont, n, wh) in corpus:
         cases.append(mk(ck, dict(cfgo, **(force or {})), cont, n, wh, oracles=oracles, sim=gen.schedule(rng, allow_buggify=False)))
     for i in range(nq if tier == 'quick' else nt):
         cfgo = gen.swarm_cfg(rng, fields=fields_quick if tier == 'quick' else None, nmax=5 if tier == 'quick' else 7)
         if force: cfgo.update(force)
+        if vary: vary(rng, cfgo)
         wh = gen.size(rng, small=True)
         if tier != 'quick' and rng.random() < 0.05: wh = gen.size(rng, small=False)
         n = rng.randint(*nrange)
@@ -81,13 +83,13 @@ def accepted_only(ck, cases, rs):
             keep.append((c, r))
     return keep
 
-def single_check(prop, tier, seed, oracles, corpus, nq, nt, rule, variant='plain', adopt=('TERM', 'CRASH'), kinds=None, nrange=(1, 12), force=None, fields_quick=gen.SAFE, level='exploration', post=None):
+def single_check(prop, tier, seed, oracles, corpus, nq, nt, rule, variant='plain', adopt=('TERM', 'CRASH'), kinds=None, nrange=(1, 12), force=None, fields_quick=gen.SAFE, level='exploration', post=None, vary=None):
     ck = Check(prop, tier, seed, level)
     ck.ev.rule = rule; ck.ev.components = core.COMPONENTS_ENC; ck.ev.assumptions = list(ENC_ASSUME)
     core.build(variant)
     rounds = 0
     while True:
-        cases = swarm_cases(ck, tier, nq, nt if rounds == 0 else nt, oracles, corpus if rounds == 0 else [], fields_quick, kinds, nrange, force)
+        cases = swarm_cases(ck, tier, nq, nt if rounds == 0 else nt, oracles, corpus if rounds == 0 else [], fields_quick, kinds, nrange, force, vary=vary)
         rs = pmap(lambda c: run_case(c, variant), cases, variant=variant)
         for c, r in zip(cases, rs):
             h = r.get('history', [])
@@ -203,28 +205,42 @@ def check_c05(tier, seed):
 # ---- C06 ---------------------------------------------------------------------------------------------------
 make_diff_evaluator('C06', 'diff_C06', adopt=('TERM', 'CRASH'))
 CPU_LEVELS = {'C': 0, 'SSE2': 0x7, 'SSSE3': 0x1f, 'SSE4_1': 0x3f, 'AVX2': 0x1ff, 'ALL': 0xffff}
+C06_SIZES = [(64, 64), (72, 72), (80, 88), (88, 72), (96, 104), (104, 80), (112, 120), (120, 96), (66, 70), (76, 68), (132, 100), (160, 136), (192, 152), (256, 72), (144, 184), (200, 88), (416, 248), (90, 74), (128, 128), (176, 144)]
 @check('C06')
 def check_c06(tier, seed):
     ck = Check('C06', tier, seed)
-    ck.ev.rule = ('family = one (configuration, content) x use_cpu_flags in {C only, ..SSE2, ..SSSE3, ..SSE4_1, ..AVX2, ALL}; the sanitizer build compiles the AVX-512 kernels (ENABLE_AVX512=ON) so ALL selects them on this host; '
+    ck.ev.rule = ('family = one (configuration, content, picture size) x use_cpu_flags in {C only, ..SSE2, ..SSSE3, ..SSE4_1, ..AVX2} on the plain build and {ALL (AVX-512 kernels, ENABLE_AVX512=ON), ..AVX2, C} on the sanitizer build; '
+                  'kernels differ per block size and per width/height remainder, so the families sweep picture sizes over the residue classes of width mod 64 / height mod 16 (incl. widths that are not multiples of 8) and rotate presets (each preset selects other kernels: sub-sampled HME, NSQ shapes, transform sizes), bit depths and contents; '
                   'one process per variant (dispatch tables are process-global); oracle: byte-identical packets and recon; distinct = distinct cases')
     ck.ev.components = core.COMPONENTS_ENC; ck.ev.assumptions = list(ENC_ASSUME) + ['this is a configuration differential executed inside the simulator; schedules are fixed (np)']
-    variant = 'asan'   # only this build contains the AVX-512 kernels
-    core.build(variant); rng = ck.rng
-    bases = [({'enc_mode': 8, 'logical_processors': 1}, {'kind': 'noise', 'seed': 3}, 3, (64, 64)), ({'enc_mode': 6, 'logical_processors': 1, 'encoder_bit_depth': 10}, {'kind': 'max', 'seed': 5}, 2, (64, 64)),
-             ({'enc_mode': 5, 'logical_processors': 1}, {'kind': 'moving', 'seed': 7}, 4, (72, 66))]
-    nexp = 1 if tier == 'quick' else 14
-    for i in range(nexp):
-        cfgo = gen.swarm_cfg(rng, fields=gen.SAFE, nmax=4); cfgo['logical_processors'] = 1
-        bases.append((cfgo, gen.content(rng, kinds=['noise', 'checker', 'max', 'zero', 'moving', 'mix', 'hgrad']), rng.randint(2, 5), gen.size(rng)))
+    core.build('plain'); core.build('asan'); rng = ck.rng
+    # part A: plain build, all levels up to AVX2, size sweep
+    levels = ['AVX2', 'C', 'SSE2', 'SSSE3', 'SSE4_1']
+    sizes = list(C06_SIZES) + [(h, w) for (w, h) in C06_SIZES if w != h and w <= 256]; rng.shuffle(sizes)   # transposed sizes: other residue combinations
+    if tier != 'quick':
+        sizes += [(rng.randrange(64, 320, 2), rng.randrange(64, 260, 2)) for _ in range(40)] + [gen.size(rng, small=False) for _ in range(3)]
+    presets = [8, 6, 7, 5, 8, 4, 6, 8, 7, 5] if tier == 'quick' else [8, 7, 6, 5, 4, 3, 2, 8, 6, 4]
     fams = []
-    levels = ['ALL', 'C', 'SSE2', 'SSSE3', 'SSE4_1', 'AVX2'] if tier != 'quick' else ['ALL', 'C', 'SSE4_1', 'AVX2']
+    for k, wh in enumerate(sizes):
+        cfgo = {'enc_mode': presets[k % len(presets)], 'logical_processors': 1}
+        if k % 5 == 3: cfgo['encoder_bit_depth'] = 10
+        if k % 7 == 2: cfgo.update({'screen_content_mode': 1, 'enc_mode': max(cfgo['enc_mode'], 6)})
+        if tier != 'quick' and k >= 2 * len(C06_SIZES): cfgo.update(gen.swarm_cfg(rng, fields=gen.SAFE, nmax=3)); cfgo['logical_processors'] = 1
+        cont = {'kind': 'text' if cfgo.get('screen_content_mode') else rng.choice(['moving', 'moving', 'mix', 'noise', 'checker', 'grainy']), 'seed': rng.randint(1, 999)}
+        n = 3 if cfgo['enc_mode'] >= 6 else 2
+        fams.append([mk(ck, dict(cfgo, use_cpu_flags=CPU_LEVELS[lv]), cont, n, wh, oracles={'decode': 0, 'parse': 0}) for lv in levels])
+        ck.ev.probe('width_mod_64=%d' % (wh[0] % 64)); ck.ev.probe('height_mod_16=%d' % (wh[1] % 16))
+    run_families(ck, 'C06', 'diff_C06', fams, 'plain', adopt=('TERM', 'CRASH'))
+    # part B: sanitizer build (the only one that contains the AVX-512 kernels)
+    bases = [({'enc_mode': 8, 'logical_processors': 1}, {'kind': 'noise', 'seed': 3}, 3, (64, 64)), ({'enc_mode': 6, 'logical_processors': 1, 'encoder_bit_depth': 10}, {'kind': 'max', 'seed': 5}, 2, (64, 64)),
+             ({'enc_mode': 5, 'logical_processors': 1}, {'kind': 'moving', 'seed': 7}, 3, (72, 66)), ({'enc_mode': 7, 'logical_processors': 1}, {'kind': 'moving', 'seed': 9}, 3, (88, 72))]
+    for i in range(1 if tier == 'quick' else 14):
+        cfgo = gen.swarm_cfg(rng, fields=gen.SAFE, nmax=4); cfgo['logical_processors'] = 1
+        bases.append((cfgo, gen.content(rng, kinds=['noise', 'checker', 'max', 'zero', 'moving', 'mix', 'hgrad']), rng.randint(2, 4), gen.size(rng)))
+    fams = []
     for (cfgo, cont, n, wh) in bases:
-        fam = []
-        for lv in levels:
-            c = mk(ck, dict(cfgo, use_cpu_flags=CPU_LEVELS[lv]), cont, n, wh, oracles={'decode': 0, 'parse': 0}); fam.append(c)
-        fams.append(fam)
-    run_families(ck, 'C06', 'diff_C06', fams, variant, adopt=('TERM', 'CRASH'))
+        fams.append([mk(ck, dict(cfgo, use_cpu_flags=CPU_LEVELS[lv]), cont, n, wh, oracles={'decode': 0, 'parse': 0}) for lv in (['ALL', 'AVX2', 'C'] if tier == 'quick' else ['ALL', 'AVX2', 'SSE4_1', 'C'])])
+    run_families(ck, 'C06', 'diff_C06', fams, 'asan', adopt=('TERM', 'CRASH'))
     return ck.finish()
 
 # ---- C13 ---------------------------------------------------------------------------------------------------
@@ -382,9 +398,13 @@ C11_CORPUS = [
     ({'tile_columns': 2, 'tile_rows': 2, 'logical_processors': 4, 'enc_mode': 7}, {'kind': 'moving', 'seed': 7}, 4, (256, 256)),
     ({'encoder_bit_depth': 10, 'logical_processors': 1, 'enc_mode': 7}, {'kind': 'max', 'seed': 8}, 3, (70, 66)),
     ({'screen_content_mode': 1, 'logical_processors': 1, 'enc_mode': 6}, {'kind': 'text', 'seed': 9}, 3, (96, 64)),
-    ({'film_grain_denoise_strength': 50, 'logical_processors': 1}, {'kind': 'noise', 'seed': 10}, 3, (64, 64)),
+    ({'film_grain_denoise_strength': 50, 'logical_processors': 1}, {'kind': 'grainy', 'seed': 10}, 3, (128, 128)),
     ({'superres_mode': 1, 'superres_denom': 12, 'superres_kf_denom': 12, 'logical_processors': 1, 'enc_mode': 6}, {'kind': 'moving', 'seed': 11}, 3, (128, 128)),
 ]
+# rate-control routes: every (mode, intra period incl. "never", look-ahead, TPL) combination selects other branches of the rate-control kernel
+C11_CORPUS += [({'rate_control_mode': rc, 'target_bit_rate': tbr, 'intra_period_length': ip, 'look_ahead_distance': lad, 'enable_tpl_la': tpl, 'logical_processors': 2, 'recon_enabled': 0},
+                {'kind': kind, 'seed': 20 + rc * 7 + ip}, 12, (64, 64))
+               for rc in (1, 2) for (ip, kind, tbr) in ((-1, 'moving', 100000), (7, 'rails', 300000), (31, 'mix', 50000)) for (lad, tpl) in ((0, 1), (17, 1), (17, 0), (0, 0))]
 @check('C11')
 def check_c11(tier, seed):
     return single_check('C11', tier, seed, {'decode': 0, 'parse': 1, 'order': 0, 'api_errors': 1}, C11_CORPUS, 14, 300,
@@ -439,10 +459,18 @@ def check_c19(tier, seed):
 
 @check('C26')
 def check_c26(tier, seed):
+    # the statistics are computed inside the pipeline (restoration kernel) on the encoder's own reconstruction: whether that reconstruction is
+    # complete depends on who else needs it (recon output on/off, reference / non-reference picture, restoration on/off, CDEF on/off, tiles)
+    def vary(rng, cfgo):
+        cfgo['recon_enabled'] = rng.choice([0, 0, 1])
     return single_check('C26', tier, seed, {'decode': 1, 'parse': 0, 'recon_compare': 0, 'sse': 1, 'order': 0},
-        [({'stat_report': 1}, {'kind': 'mix', 'seed': 3}, 10, (64, 64)), ({'stat_report': 1, 'tf_level': 0}, {'kind': 'moving', 'seed': 4}, 9, (72, 66)), ({'stat_report': 1, 'hierarchical_levels': 3, 'enable_overlays': 1, 'enc_mode': 6}, {'kind': 'moving', 'seed': 5}, 18, (64, 64))],
-        40, 200, 'stat_report=1, 8-bit, sizes incl. non-multiples of 8, temporal filtering on/off, all hierarchical levels; film grain and superres off (the code measures before those stages); oracle: for every packet luma/cb/cr SSE == sum (submitted - dav1d-decoded)^2 over the visible area mod 2^32; distinct = distinct cases',
-        force={'stat_report': 1, 'film_grain_denoise_strength': 0, 'superres_mode': 0, 'encoder_bit_depth': 8}, fields_quick=['enc_mode', 'hierarchical_levels', 'tf_level', 'qp', 'logical_processors', 'enable_overlays', 'pred_structure', 'intra_period_length'], kinds=['mix', 'moving', 'noise', 'hgrad'])
+        [({'stat_report': 1}, {'kind': 'mix', 'seed': 3}, 10, (64, 64)), ({'stat_report': 1, 'tf_level': 0}, {'kind': 'moving', 'seed': 4}, 9, (72, 66)), ({'stat_report': 1, 'hierarchical_levels': 3, 'enable_overlays': 1, 'enc_mode': 6}, {'kind': 'moving', 'seed': 5}, 18, (64, 64)),
+         ({'stat_report': 1, 'recon_enabled': 0}, {'kind': 'mix', 'seed': 6}, 10, (64, 64)), ({'stat_report': 1, 'recon_enabled': 0, 'enc_mode': 6, 'enable_restoration_filtering': 0}, {'kind': 'moving', 'seed': 7}, 9, (70, 66)),
+         ({'stat_report': 1, 'recon_enabled': 0, 'cdef_level': 0, 'hierarchical_levels': 4}, {'kind': 'noise', 'seed': 8}, 17, (64, 64)), ({'stat_report': 1, 'recon_enabled': 0, 'enable_restoration_filtering': 1, 'enc_mode': 5}, {'kind': 'hgrad', 'seed': 9}, 6, (128, 128)),
+         ({'stat_report': 1, 'recon_enabled': 0, 'tile_columns': 1, 'tile_rows': 1, 'logical_processors': 4}, {'kind': 'moving', 'seed': 10}, 6, (256, 128)), ({'stat_report': 1, 'recon_enabled': 0, 'pred_structure': 1}, {'kind': 'moving', 'seed': 11}, 8, (66, 70)),
+         ({'stat_report': 1, 'disable_dlf_flag': 1, 'recon_enabled': 0}, {'kind': 'mix', 'seed': 12}, 8, (64, 64))],
+        40, 200, 'stat_report=1, 8-bit, sizes incl. non-multiples of 8, temporal filtering on/off, all hierarchical levels, recon output on and off, in-loop filters on/off, tiles; film grain and superres off (the code measures before those stages); oracle: for every packet luma/cb/cr SSE == sum (submitted - dav1d-decoded)^2 over the visible area mod 2^32; distinct = distinct cases',
+        force={'stat_report': 1, 'film_grain_denoise_strength': 0, 'superres_mode': 0, 'encoder_bit_depth': 8}, fields_quick=['enc_mode', 'hierarchical_levels', 'tf_level', 'qp', 'logical_processors', 'enable_overlays', 'pred_structure', 'intra_period_length', 'cdef_level', 'enable_restoration_filtering', 'disable_dlf_flag', 'tile_columns', 'tile_rows'], kinds=['mix', 'moving', 'noise', 'hgrad'], vary=vary)
 
 TOOL_SWITCHES = [('disable_dlf_flag', 1, 0, 'noise'), ('cdef_level', 0, 1, 'noise'), ('enable_restoration_filtering', 0, 1, 'noise'), ('palette_level', 0, 6, 'text'), ('intrabc_mode', 0, 1, 'text'),
                  ('enable_global_motion', 0, 1, 'moving'), ('enable_warped_motion', 0, 1, 'moving'), ('obmc_level', 0, 1, 'moving'), ('filter_intra_level', 0, 1, 'hgrad'), ('disable_cfl_flag', 1, 0, 'hgrad'),
